@@ -13,7 +13,7 @@ use std::fmt::Write as _;
 use std::path::Path;
 use std::sync::Arc;
 
-pub const GLYPHS: &[&str] = &[".notdef", "a", "b", "c", "d", "e", "f", "g", "h", "a.alt", "b.alt", "c.alt", "d.alt", "f_i", "a_b", "m1", "m2", "m3", "m4", "x", "y", "z", "w"];
+pub const GLYPHS: &[&str] = &[".notdef", "a", "b", "c", "d", "e", "f", "g", "h", "a.alt", "b.alt", "c.alt", "d.alt", "f_i", "a_b", "m1", "m2", "m3", "m4", "x", "y", "z", "w", "n.01", "n.02", "n.03", "n.04"];
 const BASES: std::ops::Range<usize> = 1..13;
 const LIGS: std::ops::Range<usize> = 13..15;
 const MARKS: std::ops::Range<usize> = 15..19;
@@ -45,7 +45,9 @@ pub enum Kind { Single, Multiple, Alternate, Ligature, ChainSub, SinglePos, Pair
 impl Kind { fn is_gpos(self) -> bool { matches!(self, Kind::SinglePos | Kind::PairPos) } }
 
 #[derive(Clone, Debug)]
-pub struct Lookup { pub name: String, pub kind: Kind, pub flag: Flag, pub rules: Vec<Rule> }
+pub struct Lookup { pub name: String, pub kind: Kind, pub flag: Flag, pub rules: Vec<Rule>,
+    /// Some(feature index): not a named block but a run of rules written directly in that feature's body
+    pub inline_in: Option<usize> }
 #[derive(Clone, Debug)]
 pub struct Feature { pub tag: &'static str, pub lookups: Vec<usize> }
 #[derive(Clone, Debug)]
@@ -63,97 +65,115 @@ fn pick_set(g: &mut Gen, pool: &[G], min: usize, max: usize) -> Vec<G> {
     out
 }
 
-pub fn gen_prog(g: &mut Gen) -> Prog {
+fn gen_kind(lg: &mut Gen) -> Kind { match lg.weighted(&[4, 2, 1, 3, 5, 2, 3]) { 0 => Kind::Single, 1 => Kind::Multiple, 2 => Kind::Alternate, 3 => Kind::Ligature, 4 => Kind::ChainSub, 5 => Kind::SinglePos, _ => Kind::PairPos } }
+fn gen_flag(lg: &mut Gen, favour_sets: bool) -> Flag {
+    match lg.weighted(&if favour_sets { [2, 2, 1, 1, 3, 6] } else { [6, 3, 1, 1, 2, 2] }) {
+        0 => Flag::default(), 1 => Flag { ignore_marks: true, ..Default::default() }, 2 => Flag { ignore_lig: true, ..Default::default() }, 3 => Flag { ignore_base: true, ..Default::default() },
+        4 => Flag { attach_class: Some(lg.below(ATTACH_CLASSES.len())), ..Default::default() }, _ => Flag { filter_set: Some(lg.below(FILTER_SETS.len())), ..Default::default() } }
+}
+
+fn gen_rules(kind: Kind, lg: &mut Gen, lookups: &[Lookup]) -> Vec<Rule> {
     let letters: Vec<G> = (1..9).collect(); // a..h
     let alts: Vec<G> = (9..13).collect();
     let marks: Vec<G> = MARKS.collect();
     let all: Vec<G> = (1..GLYPHS.len()).collect();
+    let n_rules = 1 + lg.below(if kind == Kind::ChainSub { 6 } else { 4 });
+    let mut rules: Vec<Rule> = vec![];
+    let mut used_from: BTreeSet<G> = BTreeSet::new();
+    let mut used_seq: BTreeSet<Vec<G>> = BTreeSet::new();
+    let mut class_firsts: Vec<Vec<G>> = vec![];
+    let mut class_pairs_started = false;
+    // contextual rules of one lookup tend to share their context and overlap in their inputs
+    let mut last_ctx: Option<(Vec<Vec<G>>, Vec<Vec<G>>)> = None;
+    let small: Vec<G> = vec![1, 2, 3, 19, 20];
+    for _ in 0..n_rules {
+        let mut rg = lg.fork(18);
+        match kind {
+            Kind::Single => {
+                let form = rg.below(3);
+                let from = if form == 0 { vec![*rg.pick(&all)] } else { pick_set(&mut rg, &letters, 2, 4) };
+                if from.iter().any(|x| used_from.contains(x)) { continue; }
+                let to = if form == 2 { (0..from.len()).map(|k| alts[(k + rg.clone().below(4)) % 4]).collect() } else { vec![*rg.pick(&all)] };
+                used_from.extend(from.iter().copied());
+                rules.push(Rule::Single { from, to });
+            }
+            Kind::Multiple => { let from = *rg.pick(&all); if !used_from.insert(from) { continue; } let n = 2 + rg.below(2); let to = (0..n).map(|_| all[rg.below(all.len())]).collect(); rules.push(Rule::Multiple { from, to }); }
+            Kind::Alternate => { let from = *rg.pick(&letters); if !used_from.insert(from) { continue; } let alts_ = pick_set(&mut rg, &alts, 1, 3); rules.push(Rule::Alternate { from, alts: alts_ }); }
+            Kind::Ligature => {
+                let n = 2 + rg.below(2);
+                let comps: Vec<G> = (0..n).map(|_| { let pool = if rg.chance(1, 6) { &marks } else { &letters }; pool[rg.below(pool.len())] }).collect();
+                if !used_seq.insert(comps.clone()) { continue; }
+                let lig = *rg.pick(&[13usize, 14, 9, 10]);
+                rules.push(Rule::Ligature { comps, lig });
+            }
+            Kind::ChainSub => {
+                // targets: earlier single-substitution lookups, or an inline single target
+                let singles: Vec<usize> = lookups.iter().enumerate().filter(|(_, l)| l.kind == Kind::Single && l.inline_in.is_none()).map(|(i, _)| i).collect();
+                let narrow = rg.chance(1, 2);
+                let pool: &Vec<G> = if narrow { &small } else { &all };
+                let cls = |rg: &mut Gen| -> Vec<G> { if rg.chance(1, 2) { vec![*rg.pick(pool)] } else { pick_set(rg, pool, 2, 3) } };
+                let reuse = last_ctx.is_some() && rg.chance(1, 2);
+                let (back, ahead) = if reuse { let c = last_ctx.clone().unwrap(); rg.word(); rg.word(); c } else { ((0..rg.below(3)).map(|_| cls(&mut rg)).collect::<Vec<_>>(), (0..rg.below(3)).map(|_| cls(&mut rg)).collect::<Vec<_>>()) };
+                let n_in = 1 + rg.below(2);
+                let ignore = rg.chance(1, 4);
+                let mut input = vec![];
+                for k in 0..n_in {
+                    let c = cls(&mut rg);
+                    let act = if ignore { Action::None } else if !singles.is_empty() && rg.chance(1, 3) { Action::Lookup(singles[rg.below(singles.len())]) } else if n_in == 1 { Action::Inline(*rg.pick(&alts)) } else if k == 0 && !singles.is_empty() { Action::Lookup(singles[0]) } else { Action::None };
+                    input.push((c, act));
+                }
+                if !ignore && input.iter().all(|(_, a)| *a == Action::None) { input[0].1 = Action::Inline(alts[0]); if input.len() > 1 { input.truncate(1); } }
+                // the inline form takes a single marked glyph / class
+                if input.iter().any(|(_, a)| matches!(a, Action::Inline(_))) { input.truncate(1); }
+                // an ignore rule may look further ahead than the rules it guards
+                let ahead = if ignore && rg.chance(1, 2) { let mut a = ahead.clone(); a.push(cls(&mut rg)); a } else { ahead };
+                if !ignore { last_ctx = Some((back.clone(), ahead.clone())); }
+                rules.push(Rule::Chain { back, input, ahead, ignore });
+            }
+            Kind::SinglePos => {
+                let glyphs = if rg.chance(1, 2) { vec![*rg.pick(&all)] } else { pick_set(&mut rg, &all, 2, 4) };
+                if glyphs.iter().any(|x| used_from.contains(x)) { continue; }
+                used_from.extend(glyphs.iter().copied());
+                let val = if rg.chance(1, 2) { [0, 0, rg.signed(80) as i32 * 5, 0] } else { [rg.signed(40) as i32, rg.signed(40) as i32, rg.signed(80) as i32, 0] };
+                rules.push(Rule::SinglePos { glyphs, val });
+            }
+            Kind::PairPos => {
+                let want_class = class_pairs_started || rg.chance(1, 2);
+                let xadv = { let v = rg.signed(60) as i32 * 5; if v == 0 { -15 } else { v } };
+                if !want_class {
+                    let (a, b) = (*rg.pick(&all), *rg.pick(&all));
+                    if !used_seq.insert(vec![a, b]) { continue; }
+                    rules.push(Rule::PairPos { first: vec![a], second: vec![b], first_is_class: false, second_is_class: false, xadv });
+                } else {
+                    // class pairs come after all glyph pairs; first classes pairwise equal or disjoint, second classes of one first class disjoint
+                    class_pairs_started = true;
+                    let first = if !class_firsts.is_empty() && rg.chance(1, 2) { class_firsts[rg.below(class_firsts.len())].clone() } else { pick_set(&mut rg, &letters, 2, 3) };
+                    if !class_firsts.iter().all(|c| *c == first || c.iter().all(|x| !first.contains(x))) { continue; }
+                    let second = pick_set(&mut rg, &all, 2, 3);
+                    let clash = rules.iter().any(|r| matches!(r, Rule::PairPos { first: f2, second: s2, first_is_class: true, .. } if *f2 == first && s2.iter().any(|x| second.contains(x))));
+                    // second classes across the whole lookup must be equal or disjoint as well (one class definition per subtable)
+                    let clash2 = rules.iter().any(|r| matches!(r, Rule::PairPos { second: s2, first_is_class: true, .. } if *s2 != second && s2.iter().any(|x| second.contains(x))));
+                    if clash || clash2 { continue; }
+                    if !class_firsts.contains(&first) { class_firsts.push(first.clone()); }
+                    rules.push(Rule::PairPos { first, second, first_is_class: true, second_is_class: true, xadv });
+                }
+            }
+        }
+    }
+    rules
+}
+
+pub fn gen_prog(g: &mut Gen) -> Prog {
     let langsys = match g.below(3) { 0 => vec![("DFLT", "dflt")], 1 => vec![("DFLT", "dflt"), ("latn", "dflt")], _ => vec![("DFLT", "dflt"), ("latn", "dflt"), ("latn", "TRK ")] };
     let n_lookups = 2 + g.below(5);
     let mut lookups: Vec<Lookup> = vec![];
     for li in 0..n_lookups {
-        let mut lg = g.fork(90);
-        let kind = match lg.weighted(&[4, 2, 1, 3, 4, 2, 3]) { 0 => Kind::Single, 1 => Kind::Multiple, 2 => Kind::Alternate, 3 => Kind::Ligature, 4 => Kind::ChainSub, 5 => Kind::SinglePos, _ => Kind::PairPos };
-        let flag = match lg.weighted(&[6, 3, 1, 1, 2, 2]) {
-            0 => Flag::default(), 1 => Flag { ignore_marks: true, ..Default::default() }, 2 => Flag { ignore_lig: true, ..Default::default() }, 3 => Flag { ignore_base: true, ..Default::default() },
-            4 => Flag { attach_class: Some(lg.below(ATTACH_CLASSES.len())), ..Default::default() }, _ => Flag { filter_set: Some(lg.below(FILTER_SETS.len())), ..Default::default() } };
-        let n_rules = 1 + lg.below(4);
-        let mut rules: Vec<Rule> = vec![];
-        let mut used_from: BTreeSet<G> = BTreeSet::new();
-        let mut used_seq: BTreeSet<Vec<G>> = BTreeSet::new();
-        let mut class_firsts: Vec<Vec<G>> = vec![];
-        let mut class_pairs_started = false;
-        for _ in 0..n_rules {
-            let mut rg = lg.fork(18);
-            match kind {
-                Kind::Single => {
-                    let form = rg.below(3);
-                    let from = if form == 0 { vec![*rg.pick(&all)] } else { pick_set(&mut rg, &letters, 2, 4) };
-                    if from.iter().any(|x| used_from.contains(x)) { continue; }
-                    let to = if form == 2 { (0..from.len()).map(|k| alts[(k + rg.clone().below(4)) % 4]).collect() } else { vec![*rg.pick(&all)] };
-                    used_from.extend(from.iter().copied());
-                    rules.push(Rule::Single { from, to });
-                }
-                Kind::Multiple => { let from = *rg.pick(&all); if !used_from.insert(from) { continue; } let n = 2 + rg.below(2); let to = (0..n).map(|_| all[rg.below(all.len())]).collect(); rules.push(Rule::Multiple { from, to }); }
-                Kind::Alternate => { let from = *rg.pick(&letters); if !used_from.insert(from) { continue; } let alts_ = pick_set(&mut rg, &alts, 1, 3); rules.push(Rule::Alternate { from, alts: alts_ }); }
-                Kind::Ligature => {
-                    let n = 2 + rg.below(2);
-                    let comps: Vec<G> = (0..n).map(|_| { let pool = if rg.chance(1, 6) { &marks } else { &letters }; pool[rg.below(pool.len())] }).collect();
-                    if !used_seq.insert(comps.clone()) { continue; }
-                    let lig = *rg.pick(&[13usize, 14, 9, 10]);
-                    rules.push(Rule::Ligature { comps, lig });
-                }
-                Kind::ChainSub => {
-                    // targets: earlier single-substitution lookups, or an inline single target
-                    let singles: Vec<usize> = lookups.iter().enumerate().filter(|(_, l)| l.kind == Kind::Single).map(|(i, _)| i).collect();
-                    let cls = |rg: &mut Gen| -> Vec<G> { if rg.chance(1, 2) { vec![*rg.pick(&all)] } else { pick_set(rg, &all, 2, 3) } };
-                    let back: Vec<Vec<G>> = (0..rg.below(3)).map(|_| cls(&mut rg)).collect();
-                    let ahead: Vec<Vec<G>> = (0..rg.below(3)).map(|_| cls(&mut rg)).collect();
-                    let n_in = 1 + rg.below(2);
-                    let ignore = rg.chance(1, 5);
-                    let mut input = vec![];
-                    for k in 0..n_in {
-                        let c = cls(&mut rg);
-                        let act = if ignore { Action::None } else if !singles.is_empty() && rg.chance(1, 2) { Action::Lookup(singles[rg.below(singles.len())]) } else if n_in == 1 { Action::Inline(*rg.pick(&alts)) } else if k == 0 && !singles.is_empty() { Action::Lookup(singles[0]) } else { Action::None };
-                        input.push((c, act));
-                    }
-                    if !ignore && input.iter().all(|(_, a)| *a == Action::None) { input[0].1 = Action::Inline(alts[0]); if input.len() > 1 { input.truncate(1); } }
-                    // the inline form takes a single marked glyph / class
-                    if input.iter().any(|(_, a)| matches!(a, Action::Inline(_))) { input.truncate(1); }
-                    rules.push(Rule::Chain { back, input, ahead, ignore });
-                }
-                Kind::SinglePos => {
-                    let glyphs = if rg.chance(1, 2) { vec![*rg.pick(&all)] } else { pick_set(&mut rg, &all, 2, 4) };
-                    if glyphs.iter().any(|x| used_from.contains(x)) { continue; }
-                    used_from.extend(glyphs.iter().copied());
-                    let val = if rg.chance(1, 2) { [0, 0, rg.signed(80) as i32 * 5, 0] } else { [rg.signed(40) as i32, rg.signed(40) as i32, rg.signed(80) as i32, 0] };
-                    rules.push(Rule::SinglePos { glyphs, val });
-                }
-                Kind::PairPos => {
-                    let want_class = class_pairs_started || rg.chance(1, 2);
-                    let xadv = { let v = rg.signed(60) as i32 * 5; if v == 0 { -15 } else { v } };
-                    if !want_class {
-                        let (a, b) = (*rg.pick(&all), *rg.pick(&all));
-                        if !used_seq.insert(vec![a, b]) { continue; }
-                        rules.push(Rule::PairPos { first: vec![a], second: vec![b], first_is_class: false, second_is_class: false, xadv });
-                    } else {
-                        // class pairs come after all glyph pairs; first classes pairwise equal or disjoint, second classes of one first class disjoint
-                        class_pairs_started = true;
-                        let first = if !class_firsts.is_empty() && rg.chance(1, 2) { class_firsts[rg.below(class_firsts.len())].clone() } else { pick_set(&mut rg, &letters, 2, 3) };
-                        if !class_firsts.iter().all(|c| *c == first || c.iter().all(|x| !first.contains(x))) { continue; }
-                        let second = pick_set(&mut rg, &all, 2, 3);
-                        let clash = rules.iter().any(|r| matches!(r, Rule::PairPos { first: f2, second: s2, first_is_class: true, .. } if *f2 == first && s2.iter().any(|x| second.contains(x))));
-                        // second classes across the whole lookup must be equal or disjoint as well (one class definition per subtable)
-                        let clash2 = rules.iter().any(|r| matches!(r, Rule::PairPos { second: s2, first_is_class: true, .. } if *s2 != second && s2.iter().any(|x| second.contains(x))));
-                        if clash || clash2 { continue; }
-                        if !class_firsts.contains(&first) { class_firsts.push(first.clone()); }
-                        rules.push(Rule::PairPos { first, second, first_is_class: true, second_is_class: true, xadv });
-                    }
-                }
-            }
-        }
+        let mut lg = g.fork(110);
+        let kind = gen_kind(&mut lg);
+        let flag = gen_flag(&mut lg, false);
+        let rules = gen_rules(kind, &mut lg, &lookups);
         if rules.is_empty() { continue; }
-        lookups.push(Lookup { name: format!("L{li}"), kind, flag, rules });
+        lookups.push(Lookup { name: format!("L{li}"), kind, flag, rules, inline_in: None });
     }
     // features: every lookup is referenced by at least one feature, GSUB and GPOS lookups by different tags
     let sub_tags = ["liga", "calt", "ss01", "ccmp"]; let pos_tags = ["kern", "cpsp", "dist"];
@@ -165,25 +185,52 @@ pub fn gen_prog(g: &mut Gen) -> Prog {
         if only_target { continue; }
         match features.iter_mut().find(|f| f.tag == tag) { Some(f) => f.lookups.push(i), None => features.push(Feature { tag, lookups: vec![i] }) }
     }
+    // runs of rules written directly in a feature body: consecutive runs differ in their lookupflag, so each
+    // run is a lookup of its own, declared after every named lookup
+    for fi in 0..features.len() {
+        let mut ig = g.fork(8);
+        if !ig.chance(1, 2) { continue; }
+        let gpos = lookups[features[fi].lookups[0]].kind.is_gpos();
+        let n = 1 + ig.below(3);
+        let mut prev_flag: Option<Flag> = None;
+        let mut added = vec![];
+        for k in 0..n {
+            let mut lg = g.fork(110);
+            let kind = { let c = gen_kind(&mut lg); if c.is_gpos() == gpos { c } else if gpos { if lg.chance(1, 2) { Kind::PairPos } else { Kind::SinglePos } } else { [Kind::Single, Kind::Ligature, Kind::ChainSub, Kind::Multiple][lg.below(4)] } };
+            let mut flag = gen_flag(&mut lg, true);
+            if Some(&flag) == prev_flag.as_ref() { flag = if flag == Flag::default() { Flag { ignore_marks: true, ..Default::default() } } else { Flag::default() }; }
+            let rules = gen_rules(kind, &mut lg, &lookups);
+            if rules.is_empty() { continue; }
+            prev_flag = Some(flag.clone());
+            lookups.push(Lookup { name: format!("inline{fi}_{k}"), kind, flag, rules, inline_in: Some(fi) });
+            added.push(lookups.len() - 1);
+        }
+        features[fi].lookups.extend(added);
+    }
     Prog { langsys, lookups, features }
 }
 
 // ------------------------------------------------------------------------------- FEA text
 fn gl(v: &[G]) -> String { if v.len() == 1 { GLYPHS[v[0]].to_string() } else { format!("[{}]", v.iter().map(|x| GLYPHS[*x]).collect::<Vec<_>>().join(" ")) } }
-fn cls(v: &[G]) -> String { format!("[{}]", v.iter().map(|x| GLYPHS[*x]).collect::<Vec<_>>().join(" ")) }
+/// class literal; runs of the numbered glyphs n.01 .. n.04 are written as ranges
+fn cls(v: &[G]) -> String {
+    let mut parts: Vec<String> = vec![];
+    let mut k = 0;
+    while k < v.len() {
+        let mut e = k;
+        while v[k] >= 23 && e + 1 < v.len() && v[e + 1] == v[e] + 1 { e += 1; }
+        if e > k { parts.push(format!("{} - {}", GLYPHS[v[k]], GLYPHS[v[e]])); } else { parts.push(GLYPHS[v[k]].to_string()); }
+        k = e + 1;
+    }
+    format!("[{}]", parts.join(" "))
+}
 
-pub fn to_fea(p: &Prog) -> String {
-    let mut s = String::new();
-    for (sc, la) in &p.langsys { let _ = writeln!(s, "languagesystem {sc} {};", la.trim()); }
-    for (n, m) in ATTACH_CLASSES.iter().chain(FILTER_SETS) { let _ = writeln!(s, "{n} = {};", cls(m)); }
-    let _ = writeln!(s, "table GDEF {{\n  GlyphClassDef {}, {}, {}, ;\n}} GDEF;", cls(&BASES.collect::<Vec<_>>()), cls(&LIGS.collect::<Vec<_>>()), cls(&MARKS.collect::<Vec<_>>()));
-    for l in &p.lookups {
-        let _ = writeln!(s, "lookup {} {{", l.name);
+fn write_body(s: &mut String, p: &Prog, l: &Lookup, always_flag: bool) {
         let mut fl = vec![];
         if l.flag.ignore_base { fl.push("IgnoreBaseGlyphs".to_string()); } if l.flag.ignore_lig { fl.push("IgnoreLigatures".to_string()); } if l.flag.ignore_marks { fl.push("IgnoreMarks".to_string()); }
         if let Some(c) = l.flag.attach_class { fl.push(format!("MarkAttachmentType {}", ATTACH_CLASSES[c].0)); }
         if let Some(c) = l.flag.filter_set { fl.push(format!("UseMarkFilteringSet {}", FILTER_SETS[c].0)); }
-        if !fl.is_empty() { let _ = writeln!(s, "  lookupflag {};", fl.join(" ")); }
+        if !fl.is_empty() { let _ = writeln!(s, "  lookupflag {};", fl.join(" ")); } else if always_flag { let _ = writeln!(s, "  lookupflag 0;"); }
         for r in &l.rules {
             match r {
                 Rule::Single { from, to } => { let _ = writeln!(s, "  sub {} by {};", gl(from), if to.len() == 1 { GLYPHS[to[0]].to_string() } else { cls(to) }); }
@@ -203,9 +250,24 @@ pub fn to_fea(p: &Prog) -> String {
                 Rule::PairPos { first, second, first_is_class, second_is_class, xadv } => { let _ = writeln!(s, "  pos {} {} {};", if *first_is_class { cls(first) } else { gl(first) }, if *second_is_class { cls(second) } else { gl(second) }, xadv); }
             }
         }
+}
+
+pub fn to_fea(p: &Prog) -> String {
+    let mut s = String::new();
+    for (sc, la) in &p.langsys { let _ = writeln!(s, "languagesystem {sc} {};", la.trim()); }
+    for (n, m) in ATTACH_CLASSES.iter().chain(FILTER_SETS) { let _ = writeln!(s, "{n} = {};", cls(m)); }
+    let _ = writeln!(s, "table GDEF {{\n  GlyphClassDef {}, {}, {}, ;\n}} GDEF;", cls(&BASES.collect::<Vec<_>>()), cls(&LIGS.collect::<Vec<_>>()), cls(&MARKS.collect::<Vec<_>>()));
+    for l in p.lookups.iter().filter(|l| l.inline_in.is_none()) {
+        let _ = writeln!(s, "lookup {} {{", l.name);
+        write_body(&mut s, p, l, false);
         let _ = writeln!(s, "}} {};", l.name);
     }
-    for f in &p.features { let _ = writeln!(s, "feature {} {{", f.tag); for l in &f.lookups { let _ = writeln!(s, "  lookup {};", p.lookups[*l].name); } let _ = writeln!(s, "}} {};", f.tag); }
+    for f in &p.features {
+        let _ = writeln!(s, "feature {} {{", f.tag);
+        for l in f.lookups.iter().filter(|l| p.lookups[**l].inline_in.is_some()) { write_body(&mut s, p, &p.lookups[*l], true); }
+        for l in f.lookups.iter().filter(|l| p.lookups[**l].inline_in.is_none()) { let _ = writeln!(s, "  lookup {};", p.lookups[*l].name); }
+        let _ = writeln!(s, "}} {};", f.tag);
+    }
     s
 }
 
@@ -372,6 +434,7 @@ pub fn check_prog(rep: &mut CaseReport, p: &Prog, g: &mut Gen, n_random: usize) 
     rep.nontrivial = kinds.len() >= 2 && changed;
     for k in kinds { rep.class(format!("has-{k}")); }
     if p.lookups.iter().any(|l| l.flag != Flag::default()) { rep.class("has-lookupflag"); }
+    if p.lookups.iter().any(|l| l.inline_in.is_some()) { rep.class("has-rules-in-feature-body"); }
     if rep.failures.is_empty() { rep.artifacts.clear(); }
 }
 
@@ -389,7 +452,35 @@ pub fn check(_ctx: &Ctx, genome: &[u16]) -> CaseReport {
 }
 
 pub fn parts() -> Vec<Part> {
-    vec![Part { name: "programs", genome_len: 1400, cases_quick: 400, cases_thorough: 12_000, threads: 14, max_shrink_iters: 400, check: Box::new(check), remote: None }]
+    vec![Part { name: "programs", genome_len: 1400, cases_quick: 4000, cases_thorough: 150_000, threads: 14, max_shrink_iters: 400, check: Box::new(check), remote: None }]
 }
-pub const RULE: &str = "feature files generated from a grammar over 22 glyphs with GDEF classes (bases, ligatures, marks, unclassified): 1-3 language systems, 2-6 named lookups each homogeneous in rule type and flags (GSUB single glyph / class->glyph / class->class, multiple, alternate, ligature with 2-3 components incl. marks, chaining contextual with 0-2 backtrack and lookahead items, 1-2 marked inputs, lookup references to single-substitution lookups or an inline single target, and ignore rules; GPOS single, pair with glyph pairs before class pairs) with lookupflag IgnoreMarks / IgnoreLigatures / IgnoreBaseGlyphs / MarkAttachmentType / UseMarkFilteringSet, features made of lookup references. Input strings: all strings up to length 2 (3 when at most 9 glyphs are mentioned) over the glyphs the program mentions plus the marks, and 600 random strings of length 3-8. Reference: interpreter of the source rules (lookups in declaration order, first matching rule per position, ligatures longest first, flags via GDEF classes, contextual rules applying their nested lookups at the marked positions). Subject: fea_rs compile_binary output applied by the independent GSUB/GPOS interpreter for every registered script/language. non-trivial = at least 2 lookup types and some string changed by shaping";
+pub const RULE: &str = "feature files generated from a grammar over 26 glyphs with GDEF classes (bases, ligatures, marks, unclassified): 1-3 language systems, 2-6 named lookups each homogeneous in rule type and flags (GSUB single glyph / class->glyph / class->class, multiple, alternate, ligature with 2-3 components incl. marks, chaining contextual with 0-2 backtrack and lookahead items, 1-2 marked inputs, lookup references to single-substitution lookups or an inline single target, and ignore rules; glyph classes partly written as ranges; GPOS single, pair with glyph pairs before class pairs) with lookupflag IgnoreMarks / IgnoreLigatures / IgnoreBaseGlyphs / MarkAttachmentType / UseMarkFilteringSet, features made of lookup references. Input strings: all strings up to length 2 (3 when at most 9 glyphs are mentioned) over the glyphs the program mentions plus the marks, and 600 random strings of length 3-8. Reference: interpreter of the source rules (lookups in declaration order, first matching rule per position, ligatures longest first, flags via GDEF classes, contextual rules applying their nested lookups at the marked positions). Subject: fea_rs compile_binary output applied by the independent GSUB/GPOS interpreter for every registered script/language. non-trivial = at least 2 lookup types and some string changed by shaping";
 pub const ASSUMPTIONS: &[&str] = &["inside a lookup single / multiple / alternate targets and ligature sequences are unique, class pairs come after glyph pairs, first classes are pairwise equal or disjoint and second classes equal or disjoint, so the source semantics do not depend on subtable layout", "every feature consists of lookup references only and is registered for every language system (no script / language statements)", "alternate substitution is compared through its first alternate", "nested lookups of contextual rules are single substitutions (length preserving)"];
+
+/// stored regression cases: feature text + input strings + the result the source rules give (names, x advances)
+pub fn check_literal(_ctx: &Ctx, v: &serde_json::Value) -> CaseReport {
+    let mut rep = CaseReport::default();
+    let fea = v["fea"].as_str().unwrap_or("");
+    let bytes = match compile(fea) { Ok(b) => b, Err(e) => { rep.fail("generated-program-rejected", e); return rep; } };
+    let font = match Font::new(&bytes) { Ok(f) => f, Err(e) => { rep.fail("output-unparseable", e); return rep; } };
+    let layout = match Layout::new(&font) { Ok(l) => l, Err(e) => { rep.fail("layout-tables-unreadable", e); return rep; } };
+    let gid = |n: &str| GLYPHS.iter().position(|g| *g == n).unwrap_or(0) as u16;
+    for c in v["cases"].as_array().cloned().unwrap_or_default() {
+        let (script, lang) = (c["script"].as_str().unwrap_or("DFLT"), c["lang"].as_str().unwrap_or("dflt"));
+        let input: Vec<u16> = c["input"].as_array().map(|a| a.iter().map(|x| gid(x.as_str().unwrap_or(""))).collect()).unwrap_or_default();
+        let want: Vec<u16> = c["want"].as_array().map(|a| a.iter().map(|x| gid(x.as_str().unwrap_or(""))).collect()).unwrap_or_default();
+        let sub = layout.lookups_for(Tbl::Gsub, script, lang, &[], None).unwrap_or_default();
+        let posl = layout.lookups_for(Tbl::Gpos, script, lang, &[], None).unwrap_or_default();
+        rep.evals += 1;
+        let got = if font.has(b"GSUB") { layout.gsub_apply(&sub, &input).unwrap_or_default() } else { input.clone() };
+        if got != want { rep.fail("substitution-result-differs-from-source-rules", format!("input {:?}: compiled tables give [{}], the rules give [{}]", c["input"], names(&got.iter().map(|x| *x as usize).collect::<Vec<_>>()), names(&want.iter().map(|x| *x as usize).collect::<Vec<_>>()))); continue; }
+        if let Some(wx) = c["want_xadv"].as_array() {
+            let gp = if font.has(b"GPOS") { layout.gpos_apply(&posl, &got, &[]).unwrap_or_default() } else { vec![Pos::default(); got.len()] };
+            let gx: Vec<f64> = gp.iter().map(|p| p.x_adv).collect();
+            let wx: Vec<f64> = wx.iter().map(|x| x.as_f64().unwrap_or(0.0)).collect();
+            if gx != wx { rep.fail("positioning-result-differs-from-source-rules", format!("input {:?}: x advances {gx:?}, the rules give {wx:?}", c["input"])); }
+        }
+    }
+    rep.nontrivial = true;
+    rep
+}
